@@ -1335,13 +1335,32 @@ class ServiceAnnouncer:
             instance.start()
         self.announcing_services.append(instance)
 
-    def stop_announce_service(self, instance: ServiceInstance, send_stop=True) -> None:
+    def stop_announce_service(
+        self,
+        instance: typing.Union[ServiceInstance, someip.config.Service],
+        listener: typing.Optional[ServerServiceListener] = None,
+        send_stop=True,
+    ) -> None:
         """
         stops announcing previously started service
 
-        :param instance: service instance to be stopped
+        :param instance: service instance to be stopped, or the service description
+            it was created from (as passed by
+            :meth:`someip.service.SimpleService.stop_announce`)
+        :param listener: with a service description: the listener of the instance
         :raises ValueError: if the service was not announcing
         """
+        if isinstance(listener, bool):  # stop_announce_service(instance, False)
+            listener, send_stop = None, listener
+        if isinstance(instance, someip.config.Service):
+            for candidate in self.announcing_services:
+                if candidate.service == instance and (
+                    listener is None or candidate.listener is listener
+                ):
+                    instance = candidate
+                    break
+            else:
+                raise ValueError(f"service {instance} is not announcing")
         self.announcing_services.remove(instance)
         if send_stop and self.started:
             instance.stop()
